@@ -189,3 +189,37 @@ Qed.
 Lemma representable_int_convertible_l : forall lib k z, representable lib (SInt z) k = true ->
   unconvertible lib (SInt z) k = false.
 Proof. intros lib k z H. unfold representable, unconvertible in *. destruct (base_kind k); rewrite H; reflexivity. Qed.
+
+(* ------------------------------------------------------------------ the reflected constructor *)
+Lemma set_field_null_l : forall lib k, ctor_kind_ok k = true -> set_field lib k SNull = Ok (zero_of k).
+Proof. intros lib k H; destruct k; try discriminate; reflexivity. Qed.
+Lemma construct_typed_l : forall lib fields args gs,
+  forallb ctor_kind_ok fields = true -> construct lib fields args = Ok gs -> map dyn_kind gs = fields.
+Proof.
+  intros lib fields; induction fields as [|k fs IH]; intros args gs F H.
+  - destruct args; cbn in H; inversion H; reflexivity.
+  - cbn in F. apply andb_true_iff in F. destruct F as [Fk Ffs]. destruct args as [|a r]; cbn [construct] in H.
+    + unfold set_field in H. rewrite Fk in H.
+      destruct (to_go lib k SNull) as [g| | | | ] eqn:T; try discriminate.
+      destruct (construct lib fs []) as [gs'| | | | ] eqn:E; try discriminate. inversion H; subst.
+      cbn. rewrite (to_go_typed_l _ _ _ _ T). f_equal. exact (IH [] gs' Ffs E).
+    + unfold set_field in H. rewrite Fk in H.
+      destruct (to_go lib k a) as [g| | | | ] eqn:T; try discriminate.
+      destruct (construct lib fs r) as [gs'| | | | ] eqn:E; try discriminate. inversion H; subst.
+      cbn. rewrite (to_go_typed_l _ _ _ _ T). f_equal. exact (IH r gs' Ffs E).
+Qed.
+(* every argument of the field's own sort arrives in the field exactly (these five kinds hold every
+   value of their sort, so nothing is unconvertible) *)
+Lemma set_field_matching_l : forall lib k v, ctor_kind_ok k = true -> wf v = true -> matching v k = true ->
+  set_field lib k v = Ok (inject k v).
+Proof.
+  intros lib k v Hk Hw Hm. unfold set_field. rewrite Hk.
+  destruct k; try discriminate Hk; destruct v; try discriminate Hm; cbn; try reflexivity.
+Qed.
+Lemma construct_never_crashes_l : forall lib fields args, not_crash (construct lib fields args) = true.
+Proof.
+  intros lib fields; induction fields as [|k fs IH]; intros args; [destruct args; reflexivity|].
+  destruct args as [|a r]; cbn [construct].
+  - destruct (set_field lib k SNull); try reflexivity. specialize (IH []). destruct (construct lib fs []); try reflexivity; discriminate.
+  - destruct (set_field lib k a); try reflexivity. specialize (IH r). destruct (construct lib fs r); try reflexivity; discriminate.
+Qed.
